@@ -1,5 +1,6 @@
 """Serialiser sequence extraction (shared by C02 and C03): for a `to_continuous_buffer` / `to_buffers`
 method, the guarded sequence of sources appended to the output, per path valuation."""
+import re
 import explore
 import conn
 
@@ -83,10 +84,32 @@ def strip_sites(t):
     return tuple(strip_sites(x) for x in t)
 
 
-def sequences(F, fn, loop_k=1):
-    """list of (valuation key, [items], path) for every return path; None if some path returns an untracked value."""
+def list_fields(F, impl_self):
+    """Fields of a packet struct that are lists of in-crate values other than properties (subscription entries, topic
+    filters ...): (index, name) pairs."""
+    a = F.adts.get(impl_self.split("<")[0])
+    out = []
+    if a and a.get("variants"):
+        for f in a["variants"][0]["fields"]:
+            m = re.match(r"^std::vec::Vec<(mqtt::[\w:]+)", f["ty"])
+            if m and not m.group(1).endswith("property::Property"):
+                out.append((f["i"], f["name"]))
+    return out
+
+
+def sequences(F, fn, loop_k=1, list_len=None):
+    """list of (valuation key, [items], path) for every return path; None if some path returns an untracked value.
+    list_len: give every list field of `self` exactly that many (symbolic) elements, so that any iteration idiom over it
+    (for loop, extend(flat_map), ...) is followed element by element."""
     ex = explore.Explorer(F, loop_k=loop_k, inline_pred=_inline)
-    ps = ex.run(fn["path"])
+    setup = None
+    lf = list_fields(F, fn.get("impl_self", "")) if list_len is not None else []
+    if lf:
+        def setup(exx, st, fr):
+            for i, name in lf:
+                items = [("sym", ("elem", name, k)) for k in range(list_len)]
+                st.heap[(("self",), (("f", i, name),))] = exx.cseq_new(st, name, items)
+    ps = ex.run(fn["path"], setup=setup)
     out = []
     untracked = 0
     for p in ps:
